@@ -188,7 +188,8 @@ fn main() {
     for n in 0..GEN_GRAMMARS {
         let mut rng = Rng::new(prng::sub_seed(0x5eed, 77, n as u64));
         let want_lr = n % 3 == 2;
-        let g = gen_grammar(&mut rng, want_lr);
+        let with_layout = n >= GEN_LAYOUT_FROM;
+        let g = gen_grammar(&mut rng, want_lr, with_layout);
         let id = format!("gen_{n:02}");
         let stem = "gg";
         let modname = format!("{id}_fn");
@@ -237,9 +238,9 @@ fn main() {
         writeln!(code, "    pub const TOKEN_KIND_NAMES: &[&str] = &[{}];", kinds.iter().map(|k| format!("{k:?}")).collect::<Vec<_>>().join(", ")).unwrap();
         writeln!(code, "    pub type Def = {def_name};\n}}").unwrap();
         let mac = if want_lr {
-            format!("lr_case!({modname}, {id:?}, \"fn\", false, false, true)")
+            format!("lr_case!({modname}, {id:?}, \"fn\", false, {with_layout}, {})", !with_layout)
         } else {
-            format!("glr_case!({modname}, {id:?}, \"fn\", false, false, true, false)")
+            format!("glr_case!({modname}, {id:?}, \"fn\", false, {with_layout}, {}, false)", !with_layout)
         };
         writeln!(registry, "        {mac},").unwrap();
         gen_entries.push(serde_json::json!({
@@ -247,6 +248,7 @@ fn main() {
             "sentences": g.sentences.iter().map(|t| serde_json::json!({"text": t, "valid": true})).collect::<Vec<_>>(),
             "c12": "TGW",
             "w_eligible": true, "w_reason": "generated: no terminal can match whitespace",
+            "w_ascii_only": with_layout,
             "grammar": g.text,
         }));
     }
@@ -264,7 +266,10 @@ fn main() {
 // needed.  No unit or epsilon cycles (every recursive alternative contains a
 // terminal), so forests are finite.
 // ---------------------------------------------------------------------------
-const GEN_GRAMMARS: usize = 36;
+const GEN_GRAMMARS: usize = 60;
+/// generated grammars from this index on carry a Layout rule (whitespace and
+/// `%` line comments parsed by the inner layout parser instead of skip_ws)
+const GEN_LAYOUT_FROM: usize = 36;
 
 struct GenG {
     text: String,
@@ -280,7 +285,7 @@ enum Sym {
     N(usize),
 }
 
-fn gen_grammar(rng: &mut Rng, lr: bool) -> GenG {
+fn gen_grammar(rng: &mut Rng, lr: bool, layout: bool) -> GenG {
     // terminals: (name, recognizer text, example)
     let overlapping = [("Ta", "a"), ("Tab", "ab"), ("Tabc", "abc"), ("Tb", "b"), ("Tbc", "bc"), ("Tc", "c"), ("Tca", "ca")];
     let plain = [("Plus", "+"), ("Semi", ";"), ("LP", "("), ("RP", ")"), ("Kx", "x"), ("Ky", "y"), ("Kz", "z"), ("Kw", "w")];
@@ -354,9 +359,15 @@ fn gen_grammar(rng: &mut Rng, lr: bool) -> GenG {
             .collect();
         text.push_str(&format!("N{a}: {};\n", rhs.join(" | ")));
     }
+    if layout {
+        text.push_str("Layout: LayoutItem*;\nLayoutItem: WS | Comment;\n");
+    }
     text.push_str("terminals\n");
     for t in &terms {
         text.push_str(&format!("{}: {};\n", t.0, t.1));
+    }
+    if layout {
+        text.push_str("WS: /\\s+/;\nComment: /%[^\\n]*/;\n");
     }
     // sentences by random derivation
     fn derive(rng: &mut Rng, prods: &[Vec<Vec<Sym>>], terms: &[(String, String, String, bool)], n: usize, depth: usize, out: &mut Vec<String>) {
@@ -384,7 +395,28 @@ fn gen_grammar(rng: &mut Rng, lr: bool) -> GenG {
         // without spaces only when every tokenisation is explored and no regex
         // token can swallow its neighbours
         let glued = flags_off && !any_regex && k % 2 == 1;
-        let s = if glued { toks.join("") } else { toks.join(" ") };
+        let s = if glued {
+            toks.join("")
+        } else if layout {
+            // gaps are layout: whitespace, newlines and `%` line comments
+            const GAPS: &[&str] = &[" ", " ", "\n", "  ", " % note\n", "\t%\n  ", " % a % b\n% c\n"];
+            let mut s = String::new();
+            if rng.chance(1, 4) {
+                s.push_str("% lead\n");
+            }
+            for (i, t) in toks.iter().enumerate() {
+                if i > 0 {
+                    s.push_str(GAPS[rng.usize(GAPS.len())]);
+                }
+                s.push_str(t);
+            }
+            if rng.chance(1, 4) {
+                s.push_str(" % tail");
+            }
+            s
+        } else {
+            toks.join(" ")
+        };
         if !sentences.contains(&s) {
             sentences.push(s);
         }
